@@ -7,14 +7,15 @@ CONSTANTS
   AdVals = {FALSE, TRUE}
   CdVals = {FALSE}
   DoVals = {FALSE, TRUE}
-  RdVals = {FALSE, TRUE}
+  RdVals = {TRUE}
   WithBypass = FALSE
-  Classes = {"answer", "err"}
+  Classes <- FlagClasses
   TtlVecs <- TV_One
   AdBits = {TRUE}
-  Ticks = {4000, 5500}
+  Ticks <- TK_Flags
   Configs <- CfgsDefault
-  MaxSteps = 6
+  MaxSteps = 3
+  RouteMode <- RouteModeAll
 SPECIFICATION Spec
 VIEW View
 INVARIANT TypeOK
